@@ -187,6 +187,53 @@ func faultList() []fault {
 	for _, p := range []string{"/x", "/hotp/generate/", "/HOTP/GENERATE", "/hotp", "/hotp/generate/../validate", "/%2e%2e/etc/passwd", "/otp/secret/x", strings.Repeat("/a", 3000)} {
 		out = append(out, fault{"unknown path " + trunc80(p), rawReq("GET", p, ""), true}, fault{"unknown path POST " + trunc80(p), rawReq("POST", p, "{}"), true})
 	}
+	// request paths of every length class around 64 / 128 / 256 / 1024 bytes in several byte contents (ASCII, multi-byte
+	// UTF-8 at the end / across the boundary / throughout, continuation bytes only, a truncated sequence, 0xFF,
+	// escaped slashes and NULs): whatever a layer does with the path (logging, metrics labels, routing) must not fail
+	esc := func(b []byte) string {
+		var sb strings.Builder
+		for _, c := range b {
+			if c >= 'a' && c <= 'z' || c == '/' {
+				sb.WriteByte(c)
+			} else {
+				fmt.Fprintf(&sb, "%%%02X", c)
+			}
+		}
+		return sb.String()
+	}
+	var plens []int
+	for n := 58; n <= 72; n++ {
+		plens = append(plens, n)
+	}
+	plens = append(plens, 126, 127, 128, 129, 130, 254, 255, 256, 257, 258, 1023, 1024, 1025)
+	for _, n := range plens {
+		fill := func(unit string) []byte { return []byte(strings.Repeat(unit, n/len(unit)+1))[:n-1] }
+		as := fill("a")
+		contents := map[string][]byte{
+			"ascii":              as,
+			"2-byte-char-at-end": append(append([]byte{}, as[:n-3]...), 0xC3, 0xA9),
+			"3-byte-char-at-end": append(append([]byte{}, as[:n-4]...), 0xE2, 0x82, 0xAC),
+			"4-byte-char-at-end": append(append([]byte{}, as[:n-5]...), 0xF0, 0x9F, 0x98, 0x80),
+			"2-byte-chars":       fill("\u00e9"),
+			"3-byte-chars":       fill("\u20ac"),
+			"continuation-bytes": fill("\x80\xbf"),
+			"truncated-sequence": append(append([]byte{}, as[:n-2]...), 0xE2),
+			"ff":                 fill("\xff"),
+			"nul-and-slash":      fill("a\x00%2f"),
+		}
+		var names []string
+		for k := range contents {
+			names = append(names, k)
+		}
+		sort.Strings(names)
+		for _, k := range names {
+			p := "/" + esc(contents[k])
+			out = append(out, fault{fmt.Sprintf("unknown path of %d bytes (%s)", n, k), rawReq("GET", p, ""), true})
+			if n%2 == 0 {
+				out = append(out, fault{fmt.Sprintf("unknown path of %d bytes (%s) POST", n, k), rawReq("POST", p, "{}"), true})
+			}
+		}
+	}
 	for _, p := range []string{"/docs", "/docs/", "/docs/index.html", "/docs/doc.json", "/docs/nonexistent", "/docs/../x"} {
 		out = append(out, fault{"docs " + p, rawReq("GET", p, ""), false})
 	}
